@@ -108,6 +108,9 @@ class SimSolver:
         solver = kwargs.get("solver")
         is_mip = prob.is_mixed_integer()
         rec = {"call": k, "solver": solver, "fault": fault, "mip": bool(is_mip), "status": None, "value": None,
+               # options EAO itself hands to the peer (the pinned code passes none besides `solver`): limits or
+               # tolerances set there are EAO's responsibility, not the peer's
+               "eao_options": sorted(str(x) for x in kwargs if x != "solver") + (["<positional>"] if args else []),
                "n_vars": int(sum(v.size for v in prob.variables()))}
         self.log.append(rec)
         if self.on_request is not None:
@@ -162,6 +165,11 @@ class _SimFile:
         if "w" in mode:
             disk.files[path] = ""          # O_TRUNC is immediate
             disk.acked.pop(path, None)
+        elif "a" in mode or "x" in mode:
+            if "x" in mode and path in disk.files:
+                raise FileExistsError(errno.EEXIST, "File exists (SimDisk)", path)
+            disk.files.setdefault(path, "")   # append keeps what is there
+            disk.acked.pop(path, None)
         elif "r" in mode:
             if path not in disk.files:
                 raise FileNotFoundError(errno.ENOENT, "No such file (SimDisk)", path)
@@ -203,7 +211,7 @@ class _SimFile:
             return
         self.closed = True
         f = self.fault
-        if "w" in self.mode:
+        if "w" in self.mode or "a" in self.mode or "x" in self.mode:
             if f and f[0] == "eio_close":
                 self.disk._fire("eio_close")
                 raise OSError(errno.EIO, "Input/output error on close (SimDisk)")
@@ -242,7 +250,7 @@ class SimDisk:
     def open(self, path, mode="r", *a, **k):
         self.opens += 1
         fault = None
-        want = "write" if "w" in mode else "read"
+        want = "write" if ("w" in mode or "a" in mode or "x" in mode) else "read"
         for i, f in enumerate(self._faults):
             if f[0] == want:
                 fault = tuple(f[1:]) if not isinstance(f[1], (list, tuple)) else tuple(f[1])
